@@ -110,11 +110,12 @@ def flagMeasure (p : Params K) (g : G K V) (l : L K V) : Nat :=
 The resizer can be blocked only at `rzCopyLock` (a bucket lock: `hold_step`) and at `rzMuLock` (`mu_hold_step`). -/
 theorem flag_hold_step (p : Params K) (t : Tid) (g : G K V) (l : L K V) (c : Choice K V) (g' : G K V) (l' : L K V)
     (hr : isResizer l.pc = true) (hs : tstep p t g l c = some (g', l'))
-    (hlen : (g'.tables l.rtbl).len = (g.tables l.rtbl).len) (hcur : (g'.tables g.cur).len = (g.tables g.cur).len) :
+    (hlen : usesRtbl l.pc = true → (g'.tables l.rtbl).len = (g.tables l.rtbl).len)
+    (hcur : (g'.tables g.cur).len = (g.tables g.cur).len) :
     isResizer l'.pc = false ∨ (isResizer l'.pc = true ∧ flagMeasure p g' l' < flagMeasure p g l) := by
   cases hpc : l.pc <;> simp only [isResizer, hpc, reduceCtorEq] at hr <;>
     simp only [tstep, hpc] at hs <;> (repeat' split at hs) <;>
     simp only [Option.some.injEq, reduceCtorEq, Prod.mk.injEq] at hs <;> obtain ⟨rfl, rfl⟩ := hs <;>
-    simp_all [isResizer, flagMeasure] <;> omega
+    simp_all [isResizer, flagMeasure, usesRtbl] <;> omega
 
 end Proofs.ProtoHold
